@@ -18,8 +18,8 @@ use serde_json::{json, Value};
 use std::collections::{HashMap, HashSet};
 use std::path::Path;
 
-pub const T_ATOMS: usize = 11;
-pub const F_ATOMS: usize = 8;
+pub const T_ATOMS: usize = 12;
+pub const F_ATOMS: usize = 9;
 pub const CONDS: usize = 2;
 
 struct EffFiller {
@@ -50,7 +50,9 @@ impl Filler for EffFiller {
                     a
                 }
                 6 => Atom::new(&format!("var b{k}[x]"), vec![Ev::Decl(format!("var b{k}"))]),
-                _ => Atom::assign("z", "y * 2"),
+                7 => Atom::assign("z", "y * 2"),
+                // the only use of `x` is to choose the element that is written
+                _ => Atom::assign("a[x]", "7"),
             }
         } else {
             match c {
@@ -72,7 +74,8 @@ impl Filler for EffFiller {
                     a
                 }
                 9 => Atom::new(&format!("var b{k}[x]"), vec![Ev::Decl(format!("var b{k}"))]),
-                _ => Atom::assign("z", "y * 2"),
+                10 => Atom::assign("z", "y * 2"),
+                _ => Atom::assign("a[x]", "7"),
             }
         }
     }
